@@ -251,6 +251,9 @@ func (x *Exec) evalIdent(env *SpecEnv, name string) Val {
 	if v, ok := env.vars[name]; ok {
 		return v
 	}
+	if r, ok := x.rename[name]; ok {
+		name = r // a proof hint rebound to a renamed local (zrebind.go)
+	}
 	if env.ghostOf != nil {
 		for _, g := range env.ghostOf.is.Ghost {
 			if g.Name == name {
